@@ -102,7 +102,7 @@ def generate(rng, ctx):
         probes.append({"pos": tgt["pos"], "path": tgt["path"], "bad": bad, "routes": rng.sample(routes, rng.choice([2, 3, 5])),
                        "index": rng.choice([0, 0, 1, 2]), "nitems": rng.choice([1, 2, 3]), "equal_items": rng.random() < 0.5,
                        "key": rng.choice(["k1", "kk", "a.b", "K"]), "fmt": rng.choice(FMT_FOR_LOADS),
-                       "prior_load": rng.random() < 0.4, "reorder": rng.choice([None, None, "insert0", "pop0", "reverse"]),
+                       "prior_load": rng.random() < 0.4, "reorder": rng.choice([None, None, "insert0", "pop0", "reverse", "swap", "swap", "rotate"]),
                        "object_items": rng.random() < 0.5, "moved": rng.random() < 0.5,
                        "move_how": rng.choice(["append", "setitem", "assign", "insert0"])})
     return {"schema": schema, "probes": probes, "mounted": mounted, "twins": twins}
@@ -486,6 +486,17 @@ def attempt(cc, ctx, drv, pr, route, rng):
             elif pr["reorder"] == "reverse" and n0 > 1:
                 lst.reverse()
                 new_idx = n0 - 1 - idx
+            elif pr["reorder"] == "swap" and n0 > 1:
+                # the swap idiom, with objects that are already in the list
+                j = (idx + 1) % n0
+                lst[idx], lst[j] = lst[j], lst[idx]
+                # follow the item that was moved away, or look at the one that took its place
+                new_idx = j if pr["nitems"] % 2 else idx
+            elif pr["reorder"] == "rotate" and n0 > 2:
+                # a three-way rotation by item assignment
+                a, b, c = idx, (idx + 1) % n0, (idx + 2) % n0
+                lst[a], lst[b], lst[c] = lst[c], lst[a], lst[b]
+                new_idx = b if pr["nitems"] % 2 else a
             else:
                 new_idx = idx
         except Exception:
